@@ -195,8 +195,8 @@ def run(ctx):
         def setup(interp):
             interp.stubs['mask_password'] = stub
             interp.types[SECRET] = 'str'
-            interp.max_recursion = 6        # the recursion follows the data
-        outcomes, _i = extract(world, thunk, setup=setup, depth=9,
+            interp.max_recursion = 8        # the recursion follows the data
+        outcomes, _i = extract(world, thunk, setup=setup, depth=30,
                                capture=lambda i: holder.get('arg'))
         notes = inexact_notes(outcomes)
         if notes or not outcomes:
@@ -222,6 +222,12 @@ def run(ctx):
             return
         inputs = _all_inputs(arg)
         msg = matches(o.value, expected(arg.entries, keys), inputs)
+        if msg and 'ret(mask_dict_password' in msg:
+            # the recursion went deeper than the interpreter follows calls
+            # (a rewrite that spends more frames per level): no answer
+            rep.undecided('R8.4', label, '%s: %s (call depth of the '
+                          'analysis reached)' % (label, msg))
+            return
         rep.check('R8.4', label, msg is None,
                   '%s: %s' % (label, msg or 'value table holds'), case=label)
         # writes to the argument or to something reachable from it (an
@@ -258,8 +264,8 @@ def run(ctx):
             interp.stubs['mask_password'] = stub
             interp.types[SECRET] = 'str'
             interp.types[first] = 'str'
-            interp.max_recursion = 6
-        outcomes, _i = extract(world, thunk, setup=setup, depth=9,
+            interp.max_recursion = 8
+        outcomes, _i = extract(world, thunk, setup=setup, depth=30,
                                capture=lambda i: holder.get('arg'))
         notes = inexact_notes(outcomes)
         if notes or not outcomes:
